@@ -329,6 +329,12 @@ fn rand_op(r: &mut Rng, kinds: u32) -> Op {
     };
     let look = r.chance(1, 3);
     match (k, look) {
+        // the public fields take any value: one add in eight carries a value outside the range
+        // the decoder would clamp to (the collection must store what it is given)
+        (0, false) if r.chance(1, 8) => Op::AddT(t, *r.pick(&[5.0, 1e6, 60000.0, 60001.0, 0.0, -500.0]), r.chance(1, 4), *r.pick(&[4, 1, 99])),
+        (1, false) if r.chance(1, 8) => Op::AddD(t, *r.pick(&[0.05, 20.0, 10.0, 10.000000000000002, 0.0, -1.0, 1e300]), !r.chance(1, 5)),
+        (2, false) if r.chance(1, 8) => Op::AddE(t, r.chance(1, 2), *r.pick(&[12.0, 10.0, 0.001, 0.01, 0.0, -3.0, 1e300, 10.000000000000002])),
+        (3, false) if r.chance(1, 8) => Op::AddS(t, r.below(4) as i32, *r.pick(&[150, -5, 100, 101, i32::MAX, i32::MIN]), *r.pick(&[0, -1, 9999])),
         (0, false) => Op::AddT(t, *r.pick(&[500.0, 6.0, 1000.0, 333.3]), r.chance(1, 4), *r.pick(&[4, 3, 7])),
         (1, false) => Op::AddD(t, *r.pick(&SVS), !r.chance(1, 5)),
         (2, false) => Op::AddE(t, r.chance(1, 2), *r.pick(&[1.0, 1.0, 2.0, 0.01, 1.0000000000000002, 0.3, 0.30000000000000004])),
